@@ -5,8 +5,8 @@ import "gosym/sym"
 func init() {
 	rerr := sym.Config{Float: sym.FloatRErr, OneShotAsserts: true}
 	Register(&Spec{
-		ID:    "C04",
-		Level: "model_checking",
+		ID:          "C04",
+		Level:       "model_checking",
 		Explanation: "the documented pipeline is decomposed into stages whose contracts are each decided on the real code: decode = table entry within 3e-7 of the published EOTF (C01), encode = clipped/monotone/within 0.5+s_T codes of the published OETF at a point within half a table step (C02), alpha passes through exactly (C14: N8(float32(A)/255)==A for all 256 alphas). C04's own obligation is the linear stage: for each of the 16 ordered pairs and every linear colour in [0,1]^3 (superset of all decoded 8-bit triples), ToXYZ -> Bradford adaptation (iff the white points differ; the float64 matrix is computed concretely by the executor from the real AdaptBetweenXYYWhitePoints) -> ColorFromXYZ is within 4e-6 of A_ref*d (reals + float32 rounding-error variables, linear arithmetic), with A_ref built in the harness from declared chromaticities and the published Bradford matrix by textbook constructions; for a space to itself A_ref is the identity within 1e-9. Composition (glue): the output code is within 0.5+s_T of 255*OETF_D at a point within 1/1022 + 4e-6 + 3e-7*|A_ref|_inf of A_ref*EOTF_S(r/255); out-of-gamut values clip by C02-L1",
 		Bounds: func(tier string) map[string]interface{} {
 			return map[string]interface{}{"pairs": "all 16 ordered (source,destination) pairs", "colours": "all reals in [0,1]^3", "outside": "the glue step is an arithmetic consequence of the stage contracts stated in the explanation, not a separate solver query over the code; pipeline written in the harness from public calls as in the README"}
